@@ -507,7 +507,7 @@ func main() {
 	if bytes.Count(mp, []byte(needle)) != 1 {
 		must(fmt.Errorf("runtime/map.go: expected exactly one %q", needle))
 	}
-	mp = bytes.Replace(mp, []byte(needle), []byte(needle+"\n\tif VerifMapMode != 0 {\n\t\tr = verifMapStart(unsafe.Pointer(t), h.count)\n\t}"), 1)
+	mp = bytes.Replace(mp, []byte(needle), []byte(needle+"\n\tif VerifMapMode != 0 {\n\t\tr = verifMapStart(unsafe.Pointer(t), h.count, h.B)\n\t}"), 1)
 	// the per-map hash seed decides in which bucket a key lands, i.e. the iteration order of maps with more than 8
 	// entries: it is fixed together with the start position
 	const seedNeedle = "h.hash0 = uint32(rand())"
